@@ -1,4 +1,4 @@
-"""C15 (and the table half of C02): histories of the real CLHT-style table under concurrent get/compute/delete/range with growth,
+"""C15 (and the table half of C02): histories of the real CLHT-style table under concurrent get/compute/delete/range/clear with growth,
 shrink and pinned hash collisions; linearizability decided by LinTrace.tla (search), iteration and size by RangeHist.tla;
 CLHT.tla (mechanism model) checked exhaustively on a small instance when present."""
 import concurrent.futures as cf
@@ -18,7 +18,7 @@ def scenarios(quick, seed):
         churn = [0, 300, 900, 0][j % 4] if pol == "free" else [0, 40][j % 2]
         out.append({"clients": 2 + j % 3, "ops": (30 + 10 * (j % 4)) if pol == "free" else 8 + j % 5, "keys": 2 + j % 6, "collide": (j // 2) % 2,
                     "churn": churn, "initsize": [0, 1, 200, 5000][(j // 3) % 4], "rangers": (j // 2) % 2, "policy": pol, "resizes": (2 if j % 8 < 4 else 0) if pol == "free" else 1 + j % 3,
-                    "seed": seed * 100000 + j})
+                    "clears": [0, 0, 1, 2][(j // 4) % 4], "seed": seed * 100000 + j})
     return out
 
 
